@@ -110,6 +110,19 @@ def run_ms_update(ctx, prefixes):
                            "key-record removal pass (a parked background loop) is run the way Close runs it before the leak check")
 
 
+def run_clockjump(ctx, prefixes):
+    """the real per-second loops (checkTimeOut / checkExpried) driven with a virtual clock that jumps (harness mode clockjump; monitors only)"""
+    exe = ctx.build_harness("server", only=MS_FILES)
+    if not exe:
+        return
+    outdir = ctx.run_harness(exe, "clockjump", 1, timeout=600)
+    if outdir:
+        ctx.diff(outdir, "clockjump", classify=lambda op, impl: tuple(op.split(" ")[2:5]))
+        engine_common.read_monitor(ctx, outdir, "clockjump", prefixes)
+        ctx.assumptions.append("clock jumps: the real LockDB.checkTimeOut / checkExpried loops (which the engine harness replaces by its own tick) are driven through "
+                               "their wake-up channels with a virtual clock that jumps by 1-6 s; waits / holds of 1-4 s must end at the first tick at or after the deadline")
+
+
 def run_ms_follower(ctx):
     """C10, millisecond unit: a replicated millisecond hold on a non-leader node is deferred, never ended by the node's own clock."""
     if ctx.lake_build(["Slock.Proofs.MsWheel"], exe=True):
